@@ -169,10 +169,32 @@ func extractLifecycle(p *pkgs, f *facts) {
 		f.miss = append(f.miss, "Client.reattach")
 	}
 	keepsTest, keepsWhy := reattachConfigKeepsTest(p)
-	f.lean = append(f.lean, fmt.Sprintf("def lifecycle : Lifecycle.Params := ⟨%s, %s, %s, %s, %s, %s⟩",
-		leanBool(retryGuard), leanBool(addrSC), leanBool(clientCached), leanBool(killRemovesDir), leanBool(testNoRunner), leanBool(keepsTest)))
+	// Start: `c.l.Lock()` is its first statement, `defer c.l.Unlock()` its second, and c.l is not touched again
+	// anywhere in its body (deferred function literals included; goroutines it starts are other threads)
+	startAtomic := false
+	if st := p.fn("Client", "Start"); st != nil && len(st.Body.List) >= 2 {
+		first, ok1 := st.Body.List[0].(*ast.ExprStmt)
+		second, ok2 := st.Body.List[1].(*ast.DeferStmt)
+		if ok1 && ok2 && exprString(first.X) == "c.l.Lock()" && exprString(second.Call) == "c.l.Unlock()" {
+			n := 0
+			ast.Inspect(st.Body, func(m ast.Node) bool {
+				if _, isGo := m.(*ast.GoStmt); isGo {
+					return false // other goroutines started by Start take the lock for themselves
+				}
+				if ce, ok := m.(*ast.CallExpr); ok {
+					if r := exprString(ce); strings.HasPrefix(r, "c.l.") {
+						n++
+					}
+				}
+				return true
+			})
+			startAtomic = n == 2
+		}
+	}
+	f.lean = append(f.lean, fmt.Sprintf("def lifecycle : Lifecycle.Params := ⟨%s, %s, %s, %s, %s, %s, %s⟩",
+		leanBool(retryGuard), leanBool(addrSC), leanBool(clientCached), leanBool(killRemovesDir), leanBool(testNoRunner), leanBool(keepsTest), leanBool(startAtomic)))
 	f.set("lifecycle", map[string]interface{}{"retryGuard": retryGuard, "addrShortCircuit": addrSC, "clientCached": clientCached,
-		"killRemovesDir": killRemovesDir, "testModeNoRunner": testNoRunner, "reattachConfigKeepsTest": keepsTest, "reattachConfigKeepsTestWhy": keepsWhy})
+		"killRemovesDir": killRemovesDir, "startAtomic": startAtomic, "testModeNoRunner": testNoRunner, "reattachConfigKeepsTest": keepsTest, "reattachConfigKeepsTestWhy": keepsWhy})
 }
 
 // reattachConfigKeepsTest: Client.ReattachConfig of a client that was itself created by
